@@ -108,9 +108,19 @@ fn gen_ops(rng: &mut Rng, n_clients: usize, n: usize, tag: &mut usize, phase: us
                 let k = rng.range(0, 2);
                 let pats = (0..k)
                     .map(|_| {
+                        // now and then a pattern that reaches for $SYS: literally (refused for a
+                        // client, and must stay without effect when the server applies the
+                        // registrations itself at shutdown or load) or through a leading wildcard
+                        if rng.chance(1, 8) {
+                            return rng
+                                .pick(&["$SYS/clients/#", "$SYS/#", "$SYS/clients/?/lastWill", "$SYS/clients/?/graveGoods", "#", "?/#"])
+                                .to_string();
+                        }
                         let p = crate::wgen::pattern(rng, 3);
-                        if p.starts_with('?') || p.starts_with('#') || p.is_empty() || model::has_inner_multi(&p) {
+                        if p.is_empty() || model::has_inner_multi(&p) {
                             format!("b/{}", p.replace('#', "x"))
+                        } else if (p.starts_with('?') || p.starts_with('#')) && rng.chance(1, 2) {
+                            format!("b/{p}")
                         } else {
                             p
                         }
@@ -124,6 +134,11 @@ fn gen_ops(rng: &mut Rng, n_clients: usize, n: usize, tag: &mut usize, phase: us
                     .map(|i| {
                         let k = crate::wgen::key(rng, 3);
                         let k = if k.is_empty() { "b".to_owned() } else { k };
+                        let k = if rng.chance(1, 10) {
+                            rng.pick(&["$SYS/version", "$SYS/clients", "$SYS/store/mode"]).to_string()
+                        } else {
+                            k
+                        };
                         (k, json!(format!("lw{phase}_{tag}_{i}")))
                     })
                     .collect();
